@@ -52,6 +52,12 @@ var vfWKTMenu = []vfWKTCase{
 	{field: "sv", text: "\U0001F600", ok: true, str: "\U0001F600"}, // beyond the BMP
 	{field: "sv", text: "a\U00010348b", ok: true, str: "a\U00010348b"},
 	{field: "sv", text: `a"b\c`, ok: true, str: `a"b\c`},
+	{field: "sv", text: "\x7f", ok: true, str: "\x7f"},             // DEL: legal inside a JSON string
+	{field: "sv", text: "a\x01b", ok: true, str: "a\x01b"},         // C0 control: JSON spells it \u0001
+	{field: "sv", text: "\v", ok: true, str: "\v"},                 // Go has \v, JSON does not
+	{field: "sv", text: "\U000E0001", ok: true, str: "\U000E0001"}, // non-printable beyond the BMP
+	{field: "sv", text: `"`, ok: true, str: `"`},                   // a lone quote is not a quoted string
+	{field: "sv", text: "\xff", ok: false},                         // not UTF-8: not a proto3 string
 	{field: "du", text: "3s", ok: true, secs: 3},
 	{field: "du", text: "1.5s", ok: true, secs: 1, nanos: 500000000},
 	{field: "du", text: "-1.000000001s", ok: true, secs: -1, nanos: -1},
@@ -108,7 +114,13 @@ func VerifH_params_wkt() {
 		}
 		switch f {
 		case "sv", "byv", "fm":
-			// whether the empty text is the empty value or an error is not fixed: no crash only
+			// the empty text is the proto3 JSON text form of the empty string / bytes / mask
+			vfCheck(err == nil, "the empty text was rejected for a string-like well-known type (an empty StringValue / BytesValue / FieldMask cannot be expressed in the URL)")
+			if err == nil && f == "sv" {
+				if v, _, ok := vfWKTGet(msg, "sv", "value"); ok {
+					vfCheck(v.String() == "", "the empty text was converted to a non-empty StringValue")
+				}
+			}
 		default:
 			vfCheck(err != nil, "an empty text was accepted for a numeric / bool / time well-known type")
 		}
@@ -166,13 +178,13 @@ func VerifH_params_wkt() {
 	// symbolic short texts
 	switch vfChoice(5) {
 	case 0:
-		// StringValue: printable ASCII is delivered verbatim (a text that starts and ends with '"' is
-		// read as already quoted: unspecified; control characters: unspecified)
+		// StringValue: ASCII text is delivered verbatim (a text of two or more bytes that starts and ends
+		// with '"' is read as already quoted: unspecified)
 		v := vfString(1 + vfLen(vfBound(2, 3)))
 		for i := 0; i < len(v); i++ {
-			vfAssume(v[i] >= 0x20 && v[i] < 0x7f)
+			vfAssume(v[i] < 0x80) // every ASCII byte, control characters and DEL included
 		}
-		vfAssume(!(v[0] == '"' && v[len(v)-1] == '"'))
+		vfAssume(!(len(v) >= 2 && v[0] == '"' && v[len(v)-1] == '"'))
 		ps, err := m.parseQueryParams(url.Values{"sv": []string{v}})
 		if err == nil {
 			err = ps.set(msg)
